@@ -20,11 +20,14 @@ IMPORTS = 'From PV Require Import Codec.Micheline Michelson.Repl.'
 # ---------------------------------------------------------------------------------------------
 # cell AST: types, literals (Micheline JSON), instructions -> Michelson text and Coq literals
 # ---------------------------------------------------------------------------------------------
-T0 = {'unit': 'TUnit', 'int': 'TInt', 'nat': 'TNat', 'string': 'TString', 'mutez': 'TMutez', 'operation': 'TOperation'}
+T0 = {'unit': 'TUnit', 'int': 'TInt', 'nat': 'TNat', 'string': 'TString', 'mutez': 'TMutez', 'operation': 'TOperation', 'bool': 'TBool'}
 T1 = {'option': 'TOption', 'list': 'TList'}
-T2 = {'pair': 'TPair', 'big_map': 'TBigMap'}
+T2 = {'pair': 'TPair', 'big_map': 'TBigMap', 'lambda': 'TLambda'}
 
-UNIT, INT, NAT, STRING, MUTEZ, OPERATION = ('unit',), ('int',), ('nat',), ('string',), ('mutez',), ('operation',)
+UNIT, INT, NAT, STRING, MUTEZ, OPERATION, BOOL = ('unit',), ('int',), ('nat',), ('string',), ('mutez',), ('operation',), ('bool',)
+
+
+def lam(a, r): return ('lambda', a, r)
 
 
 def pair(a, b): return ('pair', a, b)
@@ -77,7 +80,7 @@ def lit_text(j, top=True):
 def J(v):
     """python shorthand -> Micheline JSON: int, str, None/('some', x), (a, b) pairs, 'Unit', lists, ('elt', k, v)"""
     if isinstance(v, bool):
-        raise AssertionError
+        return {'prim': 'True' if v else 'False'}
     if isinstance(v, int):
         return {'int': str(v)}
     if isinstance(v, str):
@@ -107,7 +110,7 @@ I0 = {'COMMIT': 'ICommit', 'BIG_MAP_DIFF': 'IBigMapDiff', 'RESET': 'IReset'}
 
 
 def is_m(i):
-    return i[0] in M0 or i[0] in MT or i[0] in ('PUSH', 'EMPTY_BIG_MAP', 'DIP', 'IF_NONE')
+    return i[0] in M0 or i[0] in MT or i[0] in ('PUSH', 'EMPTY_BIG_MAP', 'DIP', 'IF_NONE', 'DIPN', 'IF', 'LOOP', 'LAMBDA', 'EXEC', 'PATCH')
 
 
 def body_text(b):
@@ -124,8 +127,16 @@ def m_text(i):
         return f'EMPTY_BIG_MAP {ty_text(i[1], False)} {ty_text(i[2], False)}'
     if op == 'DIP':
         return f'DIP {body_text(i[1])}'
-    if op == 'IF_NONE':
-        return f'IF_NONE {body_text(i[1])} {body_text(i[2])}'
+    if op in ('IF_NONE', 'IF'):
+        return f'{op} {body_text(i[1])} {body_text(i[2])}'
+    if op == 'DIPN':
+        return f'DIP {i[1]} {body_text(i[2])}'
+    if op == 'LOOP':
+        return f'LOOP {body_text(i[1])}'
+    if op == 'LAMBDA':
+        return f'LAMBDA {ty_text(i[1], False)} {ty_text(i[2], False)} {body_text(i[3])}'
+    if op == 'PATCH':
+        return f'PATCH {i[1]}' + ('' if i[2] is None else f' {i[2]}')
     return op
 
 
@@ -139,8 +150,19 @@ def m_coq(i):
         return f'(MEmptyBigMap {ty_coq(i[1])} {ty_coq(i[2])})'
     if op == 'DIP':
         return f'(MDip {clist(m_coq(x) for x in i[1])})'
-    if op == 'IF_NONE':
-        return f'(MIfNone {clist(m_coq(x) for x in i[1])} {clist(m_coq(x) for x in i[2])})'
+    if op in ('IF_NONE', 'IF'):
+        return f'({"MIfNone" if op == "IF_NONE" else "MIf"} {clist(m_coq(x) for x in i[1])} {clist(m_coq(x) for x in i[2])})'
+    if op == 'DIPN':
+        return f'(MDipN {lib.cnat(i[1])} {clist(m_coq(x) for x in i[2])})'
+    if op == 'LOOP':
+        return f'(MLoop {clist(m_coq(x) for x in i[1])})'
+    if op == 'LAMBDA':
+        return f'(MLambda {ty_coq(i[1])} {ty_coq(i[2])} {clist(m_coq(x) for x in i[3])})'
+    if op == 'EXEC':
+        return 'MExec'
+    if op == 'PATCH':
+        f = {'AMOUNT': 'PAmount', 'BALANCE': 'PBalance', 'NOW': 'PNow'}[i[1]]
+        return f'(MPatch {f} {lib.copt(None if i[2] is None else cZ(i[2]))})'
     return M0[op]
 
 
@@ -268,10 +290,34 @@ def obs_ctx(c, bodies):
         k = json.dumps(c.code_expr['args'][0], sort_keys=True)
         code = [nint(bodies.index(k) if k in bodies else len(bodies))]
     table = [[nint(p), nint(src), nint(1 if cp else 0)] for p, (src, cp) in sorted(c.big_maps.items())]
-    return [par, sto, code, nint(c.tmp_big_map_index), nint(c.alloc_big_map_index), table]
+    def opt(v):
+        return [] if v is None else [nint(v)]
+    return [par, sto, code, nint(c.tmp_big_map_index), nint(c.alloc_big_map_index), table, opt(c.amount), opt(c.balance), opt(c.now)]
 
 
-def obs_stack(interp, ctxs, with_ctx=True):
+def mark_lambdas(t, j, bodies):
+    """Micheline value j of type t (type AST) with every lambda replaced by [index of its body] (Repl.v lamf)"""
+    if t is None:
+        return j
+    if t[0] == 'lambda':
+        k = json.dumps(j, sort_keys=True)
+        return [nint(bodies.index(k) if k in bodies else len(bodies))]
+    if t[0] == 'pair' and isinstance(j, dict) and j.get('prim') == 'Pair':
+        args = j['args']
+        if len(args) == 2:
+            return {'prim': 'Pair', 'args': [mark_lambdas(t[1], args[0], bodies), mark_lambdas(t[2], args[1], bodies)]}
+        rest = mark_lambdas(t[2], {'prim': 'Pair', 'args': args[1:]}, bodies)
+        return {'prim': 'Pair', 'args': [mark_lambdas(t[1], args[0], bodies)] + rest['args']}
+    if t[0] == 'option' and isinstance(j, dict) and j.get('prim') == 'Some':
+        return {'prim': 'Some', 'args': [mark_lambdas(t[1], j['args'][0], bodies)]}
+    return j
+
+
+def has_lambda(t):
+    return t is not None and (t[0] == 'lambda' or any(has_lambda(x) for x in t[1:] if isinstance(x, tuple)))
+
+
+def obs_stack(interp, ctxs, with_ctx=True, bodies=None):
     items = []
     for x in interp.stack.items:
         hs = []
@@ -282,7 +328,13 @@ def obs_stack(interp, ctxs, with_ctx=True):
             its = [[k.to_micheline_value(), v.to_micheline_value()] for k, v in h.items]
             rem = sorted((k.to_micheline_value() for k in h.removed_keys), key=jkey)
             hobs.append([nint(h.ptr), nint(idx), its, rem])
-        items.append([type(x).as_micheline_expr(), x.to_micheline_value(), hobs])
+        texpr = type(x).as_micheline_expr()
+        val = x.to_micheline_value()
+        if bodies is not None:
+            t = ty_of_expr(texpr)
+            if has_lambda(t):
+                val = mark_lambdas(t, val, bodies)
+        items.append([texpr, val, hobs])
     return items
 
 
@@ -310,7 +362,7 @@ def run_session(cells, bodies):
             walk_outputs(res.instructions, outs)
         cur = next(i for i, k in enumerate(ctxs) if k is interp.context)
         r = [nint(0)] if failed else [nint(1), outs]
-        steps.append([r, obs_stack(interp, ctxs), nint(cur), obs_ctx(interp.context, bodies)])
+        steps.append([r, obs_stack(interp, ctxs, bodies=bodies), nint(cur), obs_ctx(interp.context, bodies)])
         recs.append({'failed': failed, 'outs': outs, 'stdout': None if failed else list(res.stdout),
                      'stack': obs_stack(interp, ctxs, with_ctx=False) + [interp.stack.protected], 'ctx': ctx_fields(interp.context),
                      'attached': all(h_ctx_is(interp, x) for x in interp.stack.items),
@@ -508,14 +560,100 @@ def phrase_nested(rng, st, exact=False):
 
 
 def nested_sites(code):
-    """paths to the instruction lists inside DIP / IF_NONE bodies of a cell"""
+    """paths to the instruction lists inside DIP / DIP n / IF / IF_NONE / LOOP / LAMBDA bodies of a cell"""
     out = []
     for idx, i in enumerate(code):
-        if i[0] == 'DIP':
+        if i[0] in ('DIP', 'LOOP'):
             out.append((idx, 1))
-        elif i[0] == 'IF_NONE':
+        elif i[0] in ('IF_NONE', 'IF'):
             out += [(idx, 1), (idx, 2)]
+        elif i[0] == 'DIPN':
+            out.append((idx, 2))
+        elif i[0] == 'LAMBDA':
+            out.append((idx, 3))
     return out
+
+
+def neutral_body(rng):
+    """a body that leaves the visible stack as it found it but may touch the context"""
+    k, v = rng.choice(KEY_TYPES), rng.choice(VAL_TYPES)
+    return rng.choice([
+        [('EMPTY_BIG_MAP', k, v), ('DROP',)],
+        [('EMPTY_BIG_MAP', k, v), ('PUSH', v, J(gen_lit(rng, v))), ('SOME',), ('PUSH', k, J(gen_lit(rng, k))), ('UPDATE',), ('DROP',)],
+        [('PATCH', rng.choice(['AMOUNT', 'BALANCE', 'NOW']), rng.choice([None, 0, 5, 77]))],
+        [('PUSH', INT, J(1)), ('DROP',)],
+        [],
+    ])
+
+
+def phrase_control(rng, st, exact=False):
+    """IF / LOOP / DIP n / PATCH phrases (stack-neutral)"""
+    r = rng.random()
+    if r < 0.25:
+        return [('PATCH', rng.choice(['AMOUNT', 'BALANCE', 'NOW']), rng.choice([None, 0, 5, 1234, -3]))]
+    if r < 0.5:
+        return [('PUSH', BOOL, J(rng.random() < 0.5)), ('IF', neutral_body(rng), neutral_body(rng))]
+    if r < 0.75:
+        if rng.random() < 0.5:
+            return [('PUSH', BOOL, J(True)), ('LOOP', neutral_body(rng) + [('PUSH', BOOL, J(False))])]
+        return [('PUSH', BOOL, J(False)), ('PUSH', BOOL, J(True)), ('PUSH', BOOL, J(True)), ('LOOP', neutral_body(rng))]
+    if exact and len(st) >= 1:
+        n = rng.randrange(0, len(st) + 1)
+        return [('DIPN', n, neutral_body(rng))]
+    return [('DIPN', 0, neutral_body(rng))]
+
+
+def lambda_setup(rng):
+    """(LAMBDA instruction whose body touches the context, instructions pushing an argument)"""
+    k, v = rng.choice([STRING, NAT, INT]), rng.choice([NAT, INT, STRING])
+    bm = big_map(k, v)
+    r = rng.random()
+    if r < 0.35:
+        return ('LAMBDA', UNIT, bm, [('DROP',), ('EMPTY_BIG_MAP', k, v)]), [('UNIT',)]
+    if r < 0.55:
+        return (('LAMBDA', v, bm, [('EMPTY_BIG_MAP', k, v), ('SWAP',), ('SOME',), ('PUSH', k, J(gen_lit(rng, k))), ('UPDATE',)]),
+                [('PUSH', v, J(gen_lit(rng, v)))])
+    if r < 0.7:
+        return ('LAMBDA', UNIT, UNIT, [('PATCH', 'AMOUNT', 5)]), [('UNIT',)]
+    if r < 0.85:
+        return (('LAMBDA', bm, bm, [('PUSH', v, J(gen_lit(rng, v))), ('SOME',), ('PUSH', k, J(gen_lit(rng, k))), ('UPDATE',)]),
+                [('EMPTY_BIG_MAP', k, v)])
+    return ('LAMBDA', UNIT, UNIT, [('PUSH', BOOL, J(True)), ('IF', [('EMPTY_BIG_MAP', NAT, NAT), ('DROP',)], [])]), [('UNIT',)]
+
+
+IND_FAILS = [[('UNIT',), ('FAILWITH',)], [('PUSH', INT, J(1)), ('CAR',)], [('DROP',), ('DROP',), ('DROP',)],
+             [('PUSH', STRING, J('a')), ('PUSH', INT, J(1)), ('ADD',)], [('PUSH', MUTEZ, J(2 ** 63 - 1)), ('PUSH', MUTEZ, J(1)), ('ADD',)]]
+
+
+def indirect_ast_session(rng):
+    """the modelled version of [indirect_session]: a lambda with a context effect is stored by one cell, later cells
+    EXEC it directly or from DIP / DIP n / IF / IF_NONE / LOOP bodies without naming a context primitive, and fail or not"""
+    lam_i, arg = lambda_setup(rng)
+    body = [('DUP',)] + arg + [('EXEC',), ('DROP',)]       # [lambda] -> [lambda]
+    wraps = [body, body, [('UNIT',), ('DIP', body), ('DROP',)], [('UNIT',), ('UNIT',), ('DIPN', 2, body), ('DROP',), ('DROP',)],
+             [('PUSH', BOOL, J(True)), ('IF', body, [])], [('PUSH', option(NAT), J(None)), ('IF_NONE', body, [('DROP',)])],
+             [('PUSH', BOOL, J(True)), ('LOOP', body + [('PUSH', BOOL, J(False))])],
+             [('PUSH', BOOL, J(False)), ('PUSH', BOOL, J(True)), ('PUSH', BOOL, J(True)), ('LOOP', body)], body + body]
+    cells = []
+    if rng.random() < 0.4:
+        cells.append({'code': rng.choice([[('EMPTY_BIG_MAP', NAT, NAT), ('DROP',)], [('storage', big_map(STRING, NAT)), ('parameter', UNIT)],
+                                          [('PATCH', 'AMOUNT', 1)]])})
+    cells.append({'code': [lam_i]})
+    for _ in range(rng.randrange(2, 6)):
+        w = list(rng.choice(wraps))
+        if rng.random() < 0.5:
+            w = w + rng.choice(IND_FAILS)
+        cells.append({'code': w, 'braces': rng.random() < 0.3})
+    ret = lam_i[2]
+    if ret[0] == 'big_map':
+        # run it once more and commit the big_map it returns: the ids handed out after the failures become visible
+        cells.append({'code': arg + [('EXEC',)]})
+        cells.append({'code': [('storage', ret), ('parameter', UNIT)]})
+        cells.append({'code': [('NIL', OPERATION), ('PAIR',), ('COMMIT',)]})
+    else:
+        cells.append({'code': [('DROP',), ('EMPTY_BIG_MAP', STRING, NAT), ('storage', big_map(STRING, NAT)), ('parameter', UNIT)]})
+        cells.append({'code': [('NIL', OPERATION), ('PAIR',), ('COMMIT',)]})
+    return cells
 
 
 FAIL_KINDS = ['failwith', 'failwith_empty', 'illtyped_car', 'illtyped_add', 'underflow', 'mutez_overflow', 'bad_literal', 'bad_push_type',
@@ -600,8 +738,24 @@ def gen_cell(rng, view):
                 st = [sty] if code[-1] == ('CDR',) else [pty, sty]
         elif r < 0.56 and top is not None and top[0] == 'big_map':
             code += phrase_update(rng, st)
-        elif r < 0.64:
+        elif top is not None and top[0] == 'lambda' and r < 0.8:
+            # a stored lambda: run it (keeping a copy), directly or from a nested body; sometimes keep the result
+            a = top[1]
+            push_arg = [('EMPTY_BIG_MAP', a[1], a[2])] if a[0] == 'big_map' and a[1] in KEY_TYPES + [NAT, INT, STRING] else (
+                [('PUSH', a, J(gen_lit(rng, a)))] if a[0] in ('unit', 'int', 'nat', 'string', 'mutez', 'pair', 'option') and not has_bm(a) else [('UNIT',)])
+            body = [('DUP',)] + push_arg + [('EXEC',), ('DROP',)]
+            code += rng.choice([body, [('UNIT',), ('DIP', body), ('DROP',)], [('PUSH', BOOL, J(True)), ('IF', body, [])],
+                                [('PUSH', BOOL, J(True)), ('LOOP', body + [('PUSH', BOOL, J(False))])],
+                                [('DUP',)] + push_arg + [('EXEC',)]])
+            if code[-1] == ('EXEC',):
+                st.insert(0, top[2])
+        elif r < 0.60:
             code += phrase_nested(rng, st, exact=not code)
+        elif r < 0.66:
+            code += phrase_control(rng, st, exact=not code)
+        elif r < 0.69:
+            code.append(lambda_setup(rng)[0])
+            st.insert(0, lam(code[-1][1], code[-1][2]))
         elif r < 0.74 and sty is not None:
             # towards COMMIT: storage value, NIL operation, PAIR, COMMIT (possibly spread over cells)
             if st == [pair(lst(OPERATION), sty)]:
@@ -807,33 +961,49 @@ def extend_session(rng, cells):
     return out
 
 
-def bodies_of(cells):
+def all_bodies(cells):
+    """code bodies and lambda bodies (at any depth) of a session, in order of first appearance, without duplicates"""
     out = []
+
+    def visit(instrs):
+        for i in instrs:
+            op = i[0]
+            if op == 'code':
+                out.append(i[1])
+                visit(i[1])
+            elif op == 'LAMBDA':
+                out.append(i[3])
+                visit(i[3])
+            elif op in ('DIP', 'LOOP'):
+                visit(i[1])
+            elif op == 'DIPN':
+                visit(i[2])
+            elif op in ('IF', 'IF_NONE'):
+                visit(i[1])
+                visit(i[2])
     for c in cells:
-        for i in c.get('code', []):
-            if i[0] == 'code':
-                k = json.dumps(code_expr(i[1]), sort_keys=True)
-                if k not in out:
-                    out.append(k)
-    return out
+        visit(c.get('code', []))
+    seen, uniq = [], []
+    for b in out:
+        k = json.dumps(code_expr(b), sort_keys=True)
+        if k not in seen:
+            seen.append(k)
+            uniq.append(b)
+    return seen, uniq
+
+
+def bodies_of(cells):
+    return all_bodies(cells)[0]
 
 
 def code_expr(body):
-    """the Micheline the parser yields for a code body (what ends up in context.code_expr)"""
+    """the Micheline the parser yields for a code body (what ends up in context.code_expr / in a lambda value)"""
     from pytezos.michelson.parse import michelson_to_micheline
     return michelson_to_micheline('{ ' + ' ; '.join(m_text(x) for x in body) + ' }')
 
 
 def bodies_coq(cells):
-    seen, out = [], []
-    for c in cells:
-        for i in c.get('code', []):
-            if i[0] == 'code':
-                k = json.dumps(code_expr(i[1]), sort_keys=True)
-                if k not in seen:
-                    seen.append(k)
-                    out.append(clist(m_coq(x) for x in i[1]))
-    return clist(out)
+    return clist(clist(m_coq(x) for x in b) for b in all_bodies(cells)[1])
 
 
 def ser(o) -> bytes:
@@ -927,14 +1097,14 @@ def run(ctx: lib.Ctx) -> None:
     from pytezos.michelson.tags import prim_tags
     ctx.rule = ('sessions of <= 8 (quick) / <= 14 (thorough) cells generated adaptively against a live Interpreter from the '
                 'property\'s alphabet (parameter/storage/code declarations, PUSH and stack shuffling, EMPTY_BIG_MAP, UPDATE/GET/'
-                'GET_AND_UPDATE, DIP and IF_NONE with nested bodies, BEGIN/COMMIT/RUN, BIG_MAP_DIFF, RESET); about a third of the cells get a failure injected at a random '
-                'instruction position, also inside DIP / IF_NONE bodies (FAILWITH, ill-typed operand, stack underflow, mutez overflow, ill-typed literal, unpushable / invalid type, '
+                'GET_AND_UPDATE, DIP / DIP n / IF / IF_NONE / LOOP with nested bodies, LAMBDA and EXEC of stored lambdas, PATCH AMOUNT/BALANCE/NOW, BEGIN/COMMIT/RUN, BIG_MAP_DIFF, RESET); about a third of the cells get a failure injected at a random '
+                'instruction position, also inside DIP / DIP n / IF / IF_NONE / LOOP / LAMBDA bodies (FAILWITH, ill-typed operand, stack underflow, mutez overflow, ill-typed literal, unpushable / invalid type, '
                 'undeclared BEGIN, bad COMMIT, parse error, unknown primitive, wrong arity); plus hand-written sessions and the '
                 'witness of fixed defect 19; two oracle-only streams (cells outside the model spliced in; lambdas with context effects stored on '
                 'the stack and EXECuted by later failing cells, also from DIP/IF/ITER/MAP/LOOP bodies and APPLY-ed closures). non-trivial = some cell fails while a big_map is on the stack, or fails after touching the context; '
                 'distinct = distinct cell texts')
     # table: the primitive tags the model renders with
-    tags = {'Elt': 4, 'None': 6, 'Pair': 7, 'Some': 9, 'Unit': 0x0b, 'int': 0x5b, 'list': 0x5f, 'big_map': 0x61, 'nat': 0x62,
+    tags = {'False': 3, 'True': 0x0a, 'bool': 0x59, 'lambda': 0x5e, 'Elt': 4, 'None': 6, 'Pair': 7, 'Some': 9, 'Unit': 0x0b, 'int': 0x5b, 'list': 0x5f, 'big_map': 0x61, 'nat': 0x62,
             'option': 0x63, 'pair': 0x65, 'string': 0x68, 'mutez': 0x6a, 'unit': 0x6c, 'operation': 0x6d}
     ctx.table('prim tags used by render_ty / render_g')
     tags_ok = all(prim_tags[k][0] == v for k, v in tags.items())
@@ -957,6 +1127,10 @@ def run(ctx: lib.Ctx) -> None:
         swept += position_sweep(ctx.rng, cells, ctx.n(5, 10))
     sessions += swept
     ctx.extra['position_sweep_sessions'] = len(swept)
+
+    # modelled sessions with context effects reached through stored lambdas (the shape of seed C22-7)
+    for _ in range(ctx.n(25, 300)):
+        sessions.append((indirect_ast_session(ctx.rng), ['indirect']))
 
     cases, meta, meta_obs = [], [], []
     reported = 0
@@ -1112,8 +1286,16 @@ def fix_instr(i):
         return (op, i[1], i[2])
     if op == 'DIP':
         return ('DIP', [fix_instr(x) for x in i[1]])
-    if op == 'IF_NONE':
-        return ('IF_NONE', [fix_instr(x) for x in i[1]], [fix_instr(x) for x in i[2]])
+    if op in ('IF_NONE', 'IF'):
+        return (op, [fix_instr(x) for x in i[1]], [fix_instr(x) for x in i[2]])
+    if op == 'DIPN':
+        return ('DIPN', i[1], [fix_instr(x) for x in i[2]])
+    if op == 'LOOP':
+        return ('LOOP', [fix_instr(x) for x in i[1]])
+    if op == 'LAMBDA':
+        return ('LAMBDA', ty(i[1]), ty(i[2]), [fix_instr(x) for x in i[3]])
+    if op == 'PATCH':
+        return ('PATCH', i[1], i[2])
     return (op,)
 
 
